@@ -17,23 +17,24 @@ class LdrshRegister(Opcode):
         self.shift_n = shift_n
 
     def execute(self, processor):
-        try:
-            processor.null_check_if_thumbee(self.n)
-        except EndOfInstruction:
-            pass
-        else:
-            offset = shift(processor.registers.get(self.m), 32, self.shift_t, self.shift_n,
-                           processor.registers.cpsr.c)
-            offset_addr = bits_add(processor.registers.get(self.n), offset, 32) if self.add else bits_sub(
-                processor.registers.get(self.n), offset, 32)
-            address = offset_addr if self.index else processor.registers.get(self.n)
-            data = processor.mem_u_get(address, 2)
-            if self.wback:
-                processor.registers.set(self.n, offset_addr)
-            if processor.unaligned_support() or not bit_at(address, 0):
-                processor.registers.set(self.t, sign_extend(data, 16, 32))
+        if processor.condition_passed():
+            try:
+                processor.null_check_if_thumbee(self.n)
+            except EndOfInstruction:
+                pass
             else:
-                processor.registers.set(self.t, 0x00000000)  # unknown
+                offset = shift(processor.registers.get(self.m), 32, self.shift_t, self.shift_n,
+                               processor.registers.cpsr.c)
+                offset_addr = bits_add(processor.registers.get(self.n), offset, 32) if self.add else bits_sub(
+                    processor.registers.get(self.n), offset, 32)
+                address = offset_addr if self.index else processor.registers.get(self.n)
+                data = processor.mem_u_get(address, 2)
+                if self.wback:
+                    processor.registers.set(self.n, offset_addr)
+                if processor.unaligned_support() or not bit_at(address, 0):
+                    processor.registers.set(self.t, sign_extend(data, 16, 32))
+                else:
+                    processor.registers.set(self.t, 0x00000000)  # unknown
 
     def instruction_syndrome(self):
         if self.t == 15 or self.wback:
